@@ -125,6 +125,7 @@ class PrecipitateBase(GenericModel):
 
         #Temporary storage variables
         self._precBetaTemp = [None for _ in range(len(self.phases))]    #Composition of nucleate (found from driving force)
+        self._precStrainTemp = [0 for _ in range(len(self.phases))]     #Strain energy that was subtracted from the chemical driving force
 
     def toDict(self):
         '''
@@ -658,7 +659,8 @@ class PrecipitateBase(GenericModel):
             #If the equilibrium calculation failed, keep the last valid values for this phase
             if dgResult[1] is None:
                 continue
-            _, volDG, self._precBetaTemp[p] = dgResult
+            chemDG, volDG, self._precBetaTemp[p] = dgResult
+            self._precStrainTemp[p] = chemDG / precParams.volume.Vm - volDG
             Y.drivingForce[0,p] = volDG
             if volDG <= 0:
                 #Y starts as a copy of the previous step, so clear the nucleation terms of this phase
